@@ -21,6 +21,7 @@ pub fn main(args: &[String]) -> i32 {
     let o = Opts::parse(args);
     let nthreads = o.num("threads", 16) as usize;
     let rounds = o.num("rounds", 20) as usize;
+    let parity = o.num("second-parity", 1) as usize % 2;
     // configuration: {"table": ..., "texts": [cps...], "ftexts": ["x*2+sin(y)", ...]}  (no exmex call before the threads start)
     let mut input = String::new();
     std::io::stdin().read_to_string(&mut input).unwrap();
@@ -35,7 +36,8 @@ pub fn main(args: &[String]) -> i32 {
     // phase 1: all threads parse at once (first use of the regex statics)
     let mut handles = vec![];
     for tid in 0..nthreads {
-        let second = tid % 2 == 1;
+        // the thread that arrives last at the barrier runs first: alternate which table it has between runs
+        let second = tid % 2 == parity;
         let (table, texts, ftexts, barrier) = (if second { table2.clone() } else { table.clone() }, if second { texts2.clone() } else { texts.clone() }, ftexts.clone(), barrier.clone());
         let table_json = if second { cfg["table2"].clone() } else { cfg["table"].clone() };
         handles.push(std::thread::spawn(move || {
